@@ -97,6 +97,9 @@ structure Ref where
   name : Name
   str : Bool := false
   segs : List (Option Name) := []
+  /-- the nested part of a from-path: `from a.b.c import …` has root `a` and `sub = [b, c]`
+  (import statements have no nested part: `import a.b` is a parse error) -/
+  sub : List Name := []
   deriving DecidableEq, Repr, Inhabited
 
 /-- `name`, `name as alias`, `'name'`, `'name' as alias` -/
@@ -180,6 +183,7 @@ inductive Act where
   | fromImport (m : Ref) (items : List Item)   -- `from m import a, b as c`
   | fromAll (m : Ref)                          -- `from m import *`
   | tryImport (m : Ref) (mk : Nat)             -- `try` / `import 'm'` / `catch e` / `print 'C<mk>:<class>'`
+  | tryShow (mk : Nat) (k : Name)              -- `try` / `print "S<mk>={k}"` / `catch e` / `print 'C<mk>:<class>'`
   | fail (mk : Nat)                            -- `throw 'boom<mk>'`
   /-- `[export] t1, t2, … = r1, r2, …` — (multi-)assignment with any target shapes -/
   | assignPat (exp : Bool) (targets : List Target) (rhs : List Rhs)
@@ -276,6 +280,10 @@ structure Cfg where
   /-- non-local lookups consult the module's own exports before its wildcard imports (repair of finding
   F-C18-7); as it is, wildcard imports come first and shadow the module's own `export` -/
   exportsFirst : Bool := false
+  /-- repeating a wildcard import moves the map to the most-recent end of the frame's wildcard list
+  (repair of finding F-C18-10); as it is, `add_wildcard_import` skips a map that is already present, so
+  the repeated import does not get its precedence back -/
+  wildRefresh : Bool := false
 
 /-- execution frame: where imports resolve, locals, wildcard imports, and whether top-level
 assignments are exported (`export_top_level_ids`, host script top level only) -/
@@ -347,8 +355,10 @@ def readId (cfg : Cfg) (fr : Frame) (st : St) (k : Name) : Option V :=
   (lookup k fr.locals).orElse fun _ => nonLocal cfg fr st k
 
 /-- `add_wildcard_import`: skipped when the same map instance is already present -/
-def addWild (v : V) (fr : Frame) : Frame :=
-  if fr.wild.contains v then fr else { fr with wild := fr.wild ++ [v] }
+def addWild (refresh : Bool) (v : V) (fr : Frame) : Frame :=
+  if fr.wild.contains v then
+    (if refresh then { fr with wild := fr.wild.erase v ++ [v] } else fr)
+  else { fr with wild := fr.wild ++ [v] }
 
 /-! ### module resolution and `run_import` -/
 
@@ -437,7 +447,7 @@ def importValue : V → Except Err V
 
 /-- the value an `import m` / `from m` root denotes: a local (compile-time decision of
 `compile_import_item`) or the result of `run_import` -/
-def importRoot (cfg : Cfg) (fs : FS) (rec : Runner) (fr : Frame) (m : Ref) (st : St) :
+def rootValue (cfg : Cfg) (fs : FS) (rec : Runner) (fr : Frame) (m : Ref) (st : St) :
     Option (Except Err V × St) :=
   match (if m.str then none else lookup m.name fr.locals) with
   | some v => some (.ok v, st)
@@ -448,6 +458,38 @@ def access (cache : Path → Option Entry) (v : V) (k : Name) : Except Err V :=
   match (resolve cache v).bind (lookup k) with
   | some x => .ok x
   | none => .error .access
+
+/-- the nested items of a from-path, accessed one after the other (`compile_from`) -/
+def accessPath (cache : Path → Option Entry) : V → List Name → Except Err V
+  | v, [] => .ok v
+  | v, k :: ks =>
+    match access cache v k with
+    | .error e => .error e
+    | .ok x => accessPath cache x ks
+
+/-- root of an import / from statement followed by the nested items of its from-path -/
+def importRoot (cfg : Cfg) (fs : FS) (rec : Runner) (fr : Frame) (m : Ref) (st : St) :
+    Option (Except Err V × St) :=
+  match rootValue cfg fs rec fr m st with
+  | none => none
+  | some (.error e, st1) => some (.error e, st1)
+  | some (.ok v, st1) => some (accessPath st1.cache v m.sub, st1)
+
+/-- the value a `from … import *` statement wildcard-imports. One component: a local goes to `ImportAll`
+as a value (maps succeed, other values are a type error), anything else through `run_import` (whose
+non-local hit may be any value). Several components: the root is imported WITHOUT the wildcard flag,
+the nested items are accessed, and only the final value goes to `ImportAll`. -/
+def wildRoot (cfg : Cfg) (fs : FS) (rec : Runner) (fr : Frame) (m : Ref) (st : St) :
+    Option (Except Err V × St) :=
+  if m.sub.isEmpty then
+    match (if m.str then none else lookup m.name fr.locals) with
+    | some v => some (importValue v, st)
+    | none => runImport cfg fs rec fr m st
+  else
+    match importRoot cfg fs rec fr m st with
+    | none => none
+    | some (.error e, st1) => some (.error e, st1)
+    | some (.ok v, st1) => some (importValue v, st1)
 
 def exportIf (b : Bool) (k : Name) (v : V) (st : St) : St := if b then setData k v st else st
 
@@ -574,10 +616,7 @@ def execAct (cfg : Cfg) (fs : FS) (rec : Runner) (a : Act) (fr : Frame) (st : St
     | some (.error e, st1) => some (some e, fr, st1)
     | some (.ok mv, st1) => some (fromItems cfg.exportAlias cfg.exportStrAlias mv items fr st1)
   | .fromAll m =>
-    let r := match (if m.str then none else lookup m.name fr.locals) with
-      | some v => some (importValue v, st)
-      | none => runImport cfg fs rec fr m st
-    match r with
+    match wildRoot cfg fs rec fr m st with
     | none => none
     | some (.error e, st1) => some (some e, fr, st1)
     | some (.ok mv, st1) =>
@@ -586,14 +625,18 @@ def execAct (cfg : Cfg) (fs : FS) (rec : Runner) (a : Act) (fr : Frame) (st : St
       -- Envelope: when `m` is a local the real compiler iterates a register it never wrote
       -- (finding F-C18-2); the model exports the entries of the local's value there.
       match fr.exportTop, mv.scalar with
-      | true, true => some (some .exportEntry, addWild mv fr, st1)
-      | true, false => some (none, addWild mv fr, exportAll ((resolve st1.cache mv).getD []) st1)
-      | false, _ => some (none, addWild mv fr, st1)
+      | true, true => some (some .exportEntry, addWild cfg.wildRefresh mv fr, st1)
+      | true, false => some (none, addWild cfg.wildRefresh mv fr, exportAll ((resolve st1.cache mv).getD []) st1)
+      | false, _ => some (none, addWild cfg.wildRefresh mv fr, st1)
   | .tryImport m mk =>
     match runImport cfg fs rec fr m st with
     | none => none
     | some (.error e, st1) => some (none, fr, emit (.caught mk e) st1)
     | some (.ok _, st1) => some (none, fr, st1)
+  | .tryShow mk k =>
+    match readId cfg fr st k with
+    | none => some (none, fr, emit (.caught mk .idNotFound) st)
+    | some v => some (none, fr, emit (.show mk v) st)
   | .fail _ => some (some .thrown, fr, st)
   | .assignPat exp targets rhs =>
     match evalRhs cfg fr st rhs with
@@ -625,6 +668,7 @@ def execActs (cfg : Cfg) (fs : FS) (rec : Runner) :
 
 def Act.reads : Act → List Name
   | .show _ k => [k]
+  | .tryShow _ k => [k]
   | .exportId _ src => [src]
   | .assignPat _ _ rhs => rhs.filterMap (fun r => match r with | .ref k => some k | _ => none)
   | .compound k _ r => k :: (match r with | .ref x => [x] | _ => [])
